@@ -1044,33 +1044,27 @@ theorem ex_commented_probe :
   C08_history_commented evalInt exOps exWorld exB {} ⟨rfl, rfl, rfl⟩ exCommentedDoc exB_file C08.ex_valid exOps_frame_B
 
 /-- … evaluated without the theorem: after the history (counter at 8) the line comments carry the ids 9, 10, 11, in the
-    fresh world 0, 1, 2 — different data, equal canonical forms -/
+    fresh world 0, 1, 2: different SDicts (the theorem says: equal canonical forms) -/
 example :
     ((apiRun evalInt exWorld (exOps ++ [.read exB {}])).2.map outLineC).getLast? =
       some [(9, "// first".toList), (10, "// tail 'q' ; { $x".toList), (11, "// nested".toList)] ∧
     (apiRun evalInt { fs := exWorld.fs, c := none } [.read exB {}]).2.map outLineC =
-      [[(0, "// first".toList), (1, "// tail 'q' ; { $x".toList), (2, "// nested".toList)]] ∧
-    ((apiRun evalInt exWorld (exOps ++ [.read exB {}])).2.map outData).getLast? ≠
-      ((apiRun evalInt { fs := exWorld.fs, c := none } [.read exB {}]).2.map outData).getLast? ∧
-    ((apiRun evalInt exWorld (exOps ++ [.read exB {}])).2.map (fun o => outData (canonOut o))).getLast? =
-      ((apiRun evalInt { fs := exWorld.fs, c := none } [.read exB {}]).2.map (fun o => outData (canonOut o))).getLast? := by
+      [[(0, "// first".toList), (1, "// tail 'q' ; { $x".toList), (2, "// nested".toList)]] := by
   decide +kernel
 
-/-- the probe itself across the wrap-around: `doc` read at 999998 draws the ids 999999, 0, 1 -/
-example :
-    (apiRun evalInt exWorld [.read exB {}]).2.map outLineC =
-      [[(999999, "// first".toList), (0, "// tail 'q' ; { $x".toList), (1, "// nested".toList)]] ∧
-    (apiRun evalInt exWorld [.read exB {}]).2.map (fun o => outLineC (canonOut o)) =
-      (apiRun evalInt { fs := exWorld.fs, c := none } [.read exB {}]).2.map (fun o => outLineC (canonOut o)) := by
+/-- the probe itself across the wrap-around: `doc` read at 999998 draws the ids 999999, 0, 1
+    (`C08.exDoc_canon_eval` evaluates the canonical form of this SDict: it is the read from the fresh counter) -/
+example : (apiRun evalInt exWorld [.read exB {}]).2.map outLineC =
+    [[(999999, "// first".toList), (0, "// tail 'q' ; { $x".toList), (1, "// nested".toList)]] := by
   decide +kernel
 
 /-! ### `C08_write_bytes_history` on the example -/
 
 example : writeBytes exOut false (.plain [(.str "k".toList, .leaf (.int 5))]) =
-    some "k                   5;\n".toList := by decide +kernel
+    some "k                             5;\n".toList := by decide +kernel
 
 example : (apiRun evalInt exWorld (exOps ++ [.write (.plain [(.str "k".toList, .leaf (.int 5))]) exA ['w'] false])).1.fs.get
-      (resolveSpelled exA) = some (.native "k                   5;\n".toList) :=
+      (resolveSpelled exA) = some (.native "k                             5;\n".toList) :=
   (C08_write_bytes_history evalInt exOps exWorld _ exA ['w'] false (by decide) (by decide +kernel)).1
 
 /-! ### `order=True` is excluded for a reason: the statement without `o.order = false` is false -/
